@@ -8,25 +8,25 @@ open CamVerif CamVerif.GenApi CamVerif.GenApiSem
 
 variable {F E : Type}
 
-theorem immFloatValue_iff (cx : Ctx F E) (hnf : NoFormulaNodes cx) (d : Nat) (a : ImmOrPNode F) (s : S F) (v : F) :
+theorem immFloatValue_iffI (cx : Ctx F E) {d : Nat} (ihB : ValIH cx d) (ihA : SpecIH cx d) (a : ImmOrPNode F) (s : S F) (v : F) :
     R.val (immFloatValue cx (execRec cx d) a) s = .ok v ↔ immFloat cx (valSem cx d) a s = some v := by
   cases a with
   | imm f => simp [immFloatValue, immFloat]
-  | pnode p => exact ⟨nidFloatValue_spec (valIH cx hnf d), numFloat_exec (specIH cx d)⟩
+  | pnode p => exact ⟨nidFloatValue_spec ihB, numFloat_exec ihA⟩
 
-theorem sonInt_iff (cx : Ctx F E) (hnf : NoFormulaNodes cx) (d : Nat) (a : ImmOrPNode SlotId) (s : S F) (v : Int) :
+theorem sonInt_iffI (cx : Ctx F E) {d : Nat} (ihB : ValIH cx d) (ihA : SpecIH cx d) (a : ImmOrPNode SlotId) (s : S F) (v : Int) :
     R.val (slotOrNodeIntValue cx (execRec cx d) a) s = .ok v ↔ sonInt cx (valSem cx d) a s = some v :=
-  ⟨slotOrNodeIntValue_spec (valIH cx hnf d), sonInt_exec (specIH cx d)⟩
+  ⟨slotOrNodeIntValue_spec ihB, sonInt_exec ihA⟩
 
-theorem sonFloat_iff (cx : Ctx F E) (hnf : NoFormulaNodes cx) (d : Nat) (a : ImmOrPNode SlotId) (s : S F) (v : F) :
+theorem sonFloat_iffI (cx : Ctx F E) {d : Nat} (ihB : ValIH cx d) (ihA : SpecIH cx d) (a : ImmOrPNode SlotId) (s : S F) (v : F) :
     R.val (slotOrNodeFloatValue cx (execRec cx d) a) s = .ok v ↔ sonFloat cx (valSem cx d) a s = some v :=
-  ⟨slotOrNodeFloatValue_spec (valIH cx hnf d), sonFloat_exec (specIH cx d)⟩
+  ⟨slotOrNodeFloatValue_spec ihB, sonFloat_exec ihA⟩
 
-theorem immInt_iff (cx : Ctx F E) (hnf : NoFormulaNodes cx) (d : Nat) (a : ImmOrPNode Int) (s : S F) (v : Int) :
+theorem immInt_iffI (cx : Ctx F E) {d : Nat} (ihB : ValIH cx d) (ihA : SpecIH cx d) (a : ImmOrPNode Int) (s : S F) (v : Int) :
     R.val (immIntValue cx (execRec cx d) a) s = .ok v ↔ immInt cx (valSem cx d) a s = some v :=
-  ⟨immIntValue_spec (valIH cx hnf d), immInt_exec (specIH cx d)⟩
+  ⟨immIntValue_spec ihB, immInt_exec ihA⟩
 
-private theorem maskLen_iff (cx : Ctx F E) (hnf : NoFormulaNodes cx) (d : Nat) (rb : RegBase) (s : S F) (v : Int)
+private theorem maskLen_iffI (cx : Ctx F E) {d : Nat} (ihB : ValIH cx d) (ihA : SpecIH cx d) (rb : RegBase) (s : S F) (v : Int)
     (g : Nat → Res Err Int) :
     R.val (do let len ← regLength cx (execRec cx d) rb; R.ofRes (g (asUsize len))) s = .ok v ↔
       ((immInt cx (valSem cx d) rb.length s).bind fun l => resOpt (g (usizeOf l))) = some v := by
@@ -34,44 +34,44 @@ private theorem maskLen_iff (cx : Ctx F E) (hnf : NoFormulaNodes cx) (d : Nat) (
   constructor
   · intro h
     obtain ⟨l, hl, h⟩ := Res.bind_eq_ok h
-    exact ⟨l, (immInt_iff cx hnf d _ s l).mp (by simpa [regLength] using hl), resOpt_ok h⟩
+    exact ⟨l, (immInt_iffI cx ihB ihA _ s l).mp (by simpa [regLength] using hl), resOpt_ok h⟩
   · rintro ⟨l, hl, h⟩
-    have := (immInt_iff cx hnf d _ s l).mpr hl
+    have := (immInt_iffI cx ihB ihA _ s l).mpr hl
     simp [regLength, this, resOpt_some h]
 
-theorem intMinF_iff (cx : Ctx F E) (hnf : NoFormulaNodes cx) (d : Nat) (n : NodeId) (s : S F) (v : Int) :
+theorem intMinF_iffI (cx : Ctx F E) {d : Nat} (ihB : ValIH cx d) (ihA : SpecIH cx d) (n : NodeId) (hn : NoFormulaAt cx n) (s : S F) (v : Int) :
     R.val (intMinF cx (execRec cx d) n) s = .ok v ↔ specIntMin cx d n s = some v := by
-  unfold intMinF specIntMin
-  have hn := hnf n
+  unfold intMinF specIntMin specIntMinP
+  unfold NoFormulaAt at hn
   cases hg : cx.graph n with
   | none => simp
   | some nd =>
     cases nd <;> simp only [hg] at hn ⊢ <;> try (simp; done)
-    · exact sonInt_iff cx hnf d _ s v
+    · exact sonInt_iffI cx ihB ihA _ s v
     · rename_i rb sign endian
       cases sign <;> simp [I64_MIN, eq_comm]
     · rename_i rb mask sign endian
       unfold maskedMin
-      exact maskLen_iff cx hnf d rb s v (fun l => cx.ops.maskMin cx.profile mask l endian sign)
+      exact maskLen_iffI cx ihB ihA rb s v (fun l => cx.ops.maskMin cx.profile mask l endian sign)
 
-theorem intMaxF_iff (cx : Ctx F E) (hnf : NoFormulaNodes cx) (d : Nat) (n : NodeId) (s : S F) (v : Int) :
+theorem intMaxF_iffI (cx : Ctx F E) {d : Nat} (ihB : ValIH cx d) (ihA : SpecIH cx d) (n : NodeId) (hn : NoFormulaAt cx n) (s : S F) (v : Int) :
     R.val (intMaxF cx (execRec cx d) n) s = .ok v ↔ specIntMax cx d n s = some v := by
-  unfold intMaxF specIntMax
-  have hn := hnf n
+  unfold intMaxF specIntMax specIntMaxP
+  unfold NoFormulaAt at hn
   cases hg : cx.graph n with
   | none => simp
   | some nd =>
     cases nd <;> simp only [hg] at hn ⊢ <;> try (simp; done)
-    · exact sonInt_iff cx hnf d _ s v
+    · exact sonInt_iffI cx ihB ihA _ s v
     · simp [I64_MAX, eq_comm]
     · rename_i rb mask sign endian
       unfold maskedMax
-      exact maskLen_iff cx hnf d rb s v (fun l => cx.ops.maskMax cx.profile mask l endian sign)
+      exact maskLen_iffI cx ihB ihA rb s v (fun l => cx.ops.maskMax cx.profile mask l endian sign)
 
-theorem intIncF_iff (cx : Ctx F E) (hnf : NoFormulaNodes cx) (d : Nat) (n : NodeId) (s : S F) (v : Option Int) :
+theorem intIncF_iffI (cx : Ctx F E) {d : Nat} (ihB : ValIH cx d) (ihA : SpecIH cx d) (n : NodeId) (hn : NoFormulaAt cx n) (s : S F) (v : Option Int) :
     R.val (intIncF cx (execRec cx d) n) s = .ok v ↔ specIntInc cx d n s = some v := by
-  unfold intIncF specIntInc
-  have hn := hnf n
+  unfold intIncF specIntInc specIntIncP
+  unfold NoFormulaAt at hn
   cases hg : cx.graph n with
   | none => simp
   | some nd =>
@@ -82,34 +82,34 @@ theorem intIncF_iff (cx : Ctx F E) (hnf : NoFormulaNodes cx) (d : Nat) (n : Node
     · intro h
       obtain ⟨x, hx, h⟩ := Res.bind_eq_ok h
       simp at h
-      exact ⟨x, (immInt_iff cx hnf d _ s x).mp hx, h⟩
+      exact ⟨x, (immInt_iffI cx ihB ihA _ s x).mp hx, h⟩
     · rintro ⟨x, hx, rfl⟩
-      simp [(immInt_iff cx hnf d _ s x).mpr hx]
+      simp [(immInt_iffI cx ihB ihA _ s x).mpr hx]
 
-theorem floatMinF_iff (cx : Ctx F E) (hnf : NoFormulaNodes cx) (d : Nat) (n : NodeId) (s : S F) (v : F) :
+theorem floatMinF_iffI (cx : Ctx F E) {d : Nat} (ihB : ValIH cx d) (ihA : SpecIH cx d) (n : NodeId) (hn : NoFormulaAt cx n) (s : S F) (v : F) :
     R.val (floatMinF cx (execRec cx d) n) s = .ok v ↔ specFloatMin cx d n s = some v := by
-  unfold floatMinF specFloatMin
-  have hn := hnf n
+  unfold floatMinF specFloatMin specFloatMinP
+  unfold NoFormulaAt at hn
   cases hg : cx.graph n with
   | none => simp
   | some nd =>
     cases nd <;> simp only [hg] at hn ⊢ <;> try (simp [eq_comm]; done)
-    exact sonFloat_iff cx hnf d _ s v
+    exact sonFloat_iffI cx ihB ihA _ s v
 
-theorem floatMaxF_iff (cx : Ctx F E) (hnf : NoFormulaNodes cx) (d : Nat) (n : NodeId) (s : S F) (v : F) :
+theorem floatMaxF_iffI (cx : Ctx F E) {d : Nat} (ihB : ValIH cx d) (ihA : SpecIH cx d) (n : NodeId) (hn : NoFormulaAt cx n) (s : S F) (v : F) :
     R.val (floatMaxF cx (execRec cx d) n) s = .ok v ↔ specFloatMax cx d n s = some v := by
-  unfold floatMaxF specFloatMax
-  have hn := hnf n
+  unfold floatMaxF specFloatMax specFloatMaxP
+  unfold NoFormulaAt at hn
   cases hg : cx.graph n with
   | none => simp
   | some nd =>
     cases nd <;> simp only [hg] at hn ⊢ <;> try (simp [eq_comm]; done)
-    exact sonFloat_iff cx hnf d _ s v
+    exact sonFloat_iffI cx ihB ihA _ s v
 
-theorem floatIncF_iff (cx : Ctx F E) (hnf : NoFormulaNodes cx) (d : Nat) (n : NodeId) (s : S F) (v : Option F) :
+theorem floatIncF_iffI (cx : Ctx F E) {d : Nat} (ihB : ValIH cx d) (ihA : SpecIH cx d) (n : NodeId) (hn : NoFormulaAt cx n) (s : S F) (v : Option F) :
     R.val (floatIncF cx (execRec cx d) n) s = .ok v ↔ specFloatInc cx d n s = some v := by
-  unfold floatIncF specFloatInc
-  have hn := hnf n
+  unfold floatIncF specFloatInc specFloatIncP
+  unfold NoFormulaAt at hn
   cases hg : cx.graph n with
   | none => simp
   | some nd =>
@@ -123,11 +123,44 @@ theorem floatIncF_iff (cx : Ctx F E) (hnf : NoFormulaNodes cx) (d : Nat) (n : No
       · intro h
         obtain ⟨x, hx, h⟩ := Res.bind_eq_ok h
         simp at h
-        exact ⟨x, (immFloatValue_iff cx hnf d _ s x).mp hx, h⟩
+        exact ⟨x, (immFloatValue_iffI cx ihB ihA _ s x).mp hx, h⟩
       · rintro ⟨x, hx, rfl⟩
-        simp [(immFloatValue_iff cx hnf d _ s x).mpr hx]
+        simp [(immFloatValue_iffI cx ihB ihA _ s x).mpr hx]
 
-theorem strMaxLength_iff (cx : Ctx F E) (hnf : NoFormulaNodes cx) :
+/-! the same under the global hypothesis (as used by the setters and by Props/C03.lean) -/
+
+theorem immFloatValue_iff (cx : Ctx F E) (hnf : NoFormulaNodes cx) (d : Nat) (a : ImmOrPNode F) (s : S F) (v : F) :
+    R.val (immFloatValue cx (execRec cx d) a) s = .ok v ↔ immFloat cx (valSem cx d) a s = some v :=
+  immFloatValue_iffI cx (valIH cx hnf d) (specIH cx hnf d) a s v
+theorem sonInt_iff (cx : Ctx F E) (hnf : NoFormulaNodes cx) (d : Nat) (a : ImmOrPNode SlotId) (s : S F) (v : Int) :
+    R.val (slotOrNodeIntValue cx (execRec cx d) a) s = .ok v ↔ sonInt cx (valSem cx d) a s = some v :=
+  sonInt_iffI cx (valIH cx hnf d) (specIH cx hnf d) a s v
+theorem sonFloat_iff (cx : Ctx F E) (hnf : NoFormulaNodes cx) (d : Nat) (a : ImmOrPNode SlotId) (s : S F) (v : F) :
+    R.val (slotOrNodeFloatValue cx (execRec cx d) a) s = .ok v ↔ sonFloat cx (valSem cx d) a s = some v :=
+  sonFloat_iffI cx (valIH cx hnf d) (specIH cx hnf d) a s v
+theorem immInt_iff (cx : Ctx F E) (hnf : NoFormulaNodes cx) (d : Nat) (a : ImmOrPNode Int) (s : S F) (v : Int) :
+    R.val (immIntValue cx (execRec cx d) a) s = .ok v ↔ immInt cx (valSem cx d) a s = some v :=
+  immInt_iffI cx (valIH cx hnf d) (specIH cx hnf d) a s v
+theorem intMinF_iff (cx : Ctx F E) (hnf : NoFormulaNodes cx) (d : Nat) (n : NodeId) (s : S F) (v : Int) :
+    R.val (intMinF cx (execRec cx d) n) s = .ok v ↔ specIntMin cx d n s = some v :=
+  intMinF_iffI cx (valIH cx hnf d) (specIH cx hnf d) n (hnf n) s v
+theorem intMaxF_iff (cx : Ctx F E) (hnf : NoFormulaNodes cx) (d : Nat) (n : NodeId) (s : S F) (v : Int) :
+    R.val (intMaxF cx (execRec cx d) n) s = .ok v ↔ specIntMax cx d n s = some v :=
+  intMaxF_iffI cx (valIH cx hnf d) (specIH cx hnf d) n (hnf n) s v
+theorem intIncF_iff (cx : Ctx F E) (hnf : NoFormulaNodes cx) (d : Nat) (n : NodeId) (s : S F) (v : Option Int) :
+    R.val (intIncF cx (execRec cx d) n) s = .ok v ↔ specIntInc cx d n s = some v :=
+  intIncF_iffI cx (valIH cx hnf d) (specIH cx hnf d) n (hnf n) s v
+theorem floatMinF_iff (cx : Ctx F E) (hnf : NoFormulaNodes cx) (d : Nat) (n : NodeId) (s : S F) (v : F) :
+    R.val (floatMinF cx (execRec cx d) n) s = .ok v ↔ specFloatMin cx d n s = some v :=
+  floatMinF_iffI cx (valIH cx hnf d) (specIH cx hnf d) n (hnf n) s v
+theorem floatMaxF_iff (cx : Ctx F E) (hnf : NoFormulaNodes cx) (d : Nat) (n : NodeId) (s : S F) (v : F) :
+    R.val (floatMaxF cx (execRec cx d) n) s = .ok v ↔ specFloatMax cx d n s = some v :=
+  floatMaxF_iffI cx (valIH cx hnf d) (specIH cx hnf d) n (hnf n) s v
+theorem floatIncF_iff (cx : Ctx F E) (hnf : NoFormulaNodes cx) (d : Nat) (n : NodeId) (s : S F) (v : Option F) :
+    R.val (floatIncF cx (execRec cx d) n) s = .ok v ↔ specFloatInc cx d n s = some v :=
+  floatIncF_iffI cx (valIH cx hnf d) (specIH cx hnf d) n (hnf n) s v
+
+theorem strMaxLength_iffH (cx : Ctx F E) (hs : IHs cx) :
     ∀ (d : Nat) (n : NodeId) (s : S F) (v : Int),
       R.val ((execRec cx d).strMaxLength n) s = .ok v ↔ specStrMaxLength cx d n s = some v
   | 0, n, s, v => by simp [execRec, Rec.bottom, specStrMaxLength]
@@ -144,47 +177,47 @@ theorem strMaxLength_iff (cx : Ctx F E) (hnf : NoFormulaNodes cx) :
         | pnode p =>
           simp only [strValued_eq]
           by_cases hk : isStrKind cx p = true
-          · simp only [hk, if_true]; exact strMaxLength_iff cx hnf d p s v
+          · simp only [hk, if_true]; exact strMaxLength_iffH cx hs d p s v
           · simp [hk]
-      · exact immInt_iff cx hnf d _ s v
+      · exact immInt_iffI cx (hs.val d) (hs.spec d) _ s v
 
-theorem intSetMinF_iff (cx : Ctx F E) (hnf : NoFormulaNodes cx) (d : Nat) (n : NodeId) (v : Int) (s s' : S F) :
+theorem intSetMinF_iffH (cx : Ctx F E) (hs : IHs cx) (d : Nat) (n : NodeId) (v : Int) (s s' : S F) :
     M.eff (intSetMinF cx (execRec cx d) n v) s = (.ok (), s') ↔ specIntSetMin cx d n v s = some s' := by
   unfold intSetMinF specIntSetMin
   cases hg : cx.graph n with
   | none => simp
   | some nd =>
     cases nd <;> simp only <;> try (simp; done)
-    exact sonSetInt_iff (setIH cx hnf d)
+    exact sonSetInt_iff (hs.set d)
 
-theorem intSetMaxF_iff (cx : Ctx F E) (hnf : NoFormulaNodes cx) (d : Nat) (n : NodeId) (v : Int) (s s' : S F) :
+theorem intSetMaxF_iffH (cx : Ctx F E) (hs : IHs cx) (d : Nat) (n : NodeId) (v : Int) (s s' : S F) :
     M.eff (intSetMaxF cx (execRec cx d) n v) s = (.ok (), s') ↔ specIntSetMax cx d n v s = some s' := by
   unfold intSetMaxF specIntSetMax
   cases hg : cx.graph n with
   | none => simp
   | some nd =>
     cases nd <;> simp only <;> try (simp; done)
-    exact sonSetInt_iff (setIH cx hnf d)
+    exact sonSetInt_iff (hs.set d)
 
-theorem floatSetMinF_iff (cx : Ctx F E) (hnf : NoFormulaNodes cx) (d : Nat) (n : NodeId) (v : F) (s s' : S F) :
+theorem floatSetMinF_iffH (cx : Ctx F E) (hs : IHs cx) (d : Nat) (n : NodeId) (v : F) (s s' : S F) :
     M.eff (floatSetMinF cx (execRec cx d) n v) s = (.ok (), s') ↔ specFloatSetMin cx d n v s = some s' := by
   unfold floatSetMinF specFloatSetMin
   cases hg : cx.graph n with
   | none => simp
   | some nd =>
     cases nd <;> simp only <;> try (simp; done)
-    exact sonSetFloat_iff (setIH cx hnf d)
+    exact sonSetFloat_iff (hs.set d)
 
-theorem floatSetMaxF_iff (cx : Ctx F E) (hnf : NoFormulaNodes cx) (d : Nat) (n : NodeId) (v : F) (s s' : S F) :
+theorem floatSetMaxF_iffH (cx : Ctx F E) (hs : IHs cx) (d : Nat) (n : NodeId) (v : F) (s s' : S F) :
     M.eff (floatSetMaxF cx (execRec cx d) n v) s = (.ok (), s') ↔ specFloatSetMax cx d n v s = some s' := by
   unfold floatSetMaxF specFloatSetMax
   cases hg : cx.graph n with
   | none => simp
   | some nd =>
     cases nd <;> simp only <;> try (simp; done)
-    exact sonSetFloat_iff (setIH cx hnf d)
+    exact sonSetFloat_iff (hs.set d)
 
-theorem enumSetByNameF_iff (cx : Ctx F E) (hnf : NoFormulaNodes cx) (d : Nat) (n : NodeId) (name : String)
+theorem enumSetByNameF_iffH (cx : Ctx F E) (hs : IHs cx) (d : Nat) (n : NodeId) (name : String)
     (s s' : S F) :
     M.eff (enumSetByNameF cx (execRec cx d) n name) s = (.ok (), s') ↔ specEnumSetByName cx d n name s = some s' := by
   unfold enumSetByNameF specEnumSetByName
@@ -196,7 +229,7 @@ theorem enumSetByNameF_iff (cx : Ctx F E) (hnf : NoFormulaNodes cx) (d : Nat) (n
     have key : ∀ v, M.eff (enumSetByValueOf cx (execRec cx d) entries value v) s = (.ok (), s') ↔
         (setSem cx (d + 1)).enum n v s = some s' := by
       intro v
-      have := @enumSetByValueF_iff F E cx d (setIH cx hnf d) n v s s'
+      have := @enumSetByValueF_iff F E cx d (hs.set d) n v s s'
       simpa [enumSetByValueF, hg, setSem] using this
     simp only [M.eff_bind_ok_iff, M.eff_ofRes, Prod.mk.injEq, entryValueNamed_eq, Option.bind_eq_some_iff]
     constructor
@@ -236,11 +269,11 @@ theorem imageRead_length {mem : Bytes} {a : Int} {n : Nat} {bs : Bytes} (h : ima
   · exact imageBytes_length _ _ _ _ h
   · cases h
 
-theorem regReadF_iff (cx : Ctx F E) (hnf : NoFormulaNodes cx) (d : Nat) (n : NodeId) (bufLen : Nat) (s : S F)
+theorem regReadF_iffH (cx : Ctx F E) (hs : IHs cx) (d : Nat) (n : NodeId) (bufLen : Nat) (s : S F)
     (bs : Bytes) :
     R.val (regReadF cx (execRec cx d) n bufLen) s = .ok bs ↔ specRegRead cx d n bufLen s = some bs := by
-  have ihB := valIH cx hnf d
-  have ihA := specIH cx d
+  have ihB := hs.val d
+  have ihA := hs.spec d
   unfold regReadF specRegRead
   cases hg : cx.graph n with
   | none => simp
@@ -299,5 +332,39 @@ theorem regReadF_iff (cx : Ctx F E) (hnf : NoFormulaNodes cx) (d : Nat) (n : Nod
                   readAndCache, lenMatches, hnl, hpr]
           · simp [hl0] at h
         · simp [hbl] at hlen
+
+
+/-! the same under the global hypothesis -/
+
+theorem strMaxLength_iff (cx : Ctx F E) (hnf : NoFormulaNodes cx) :
+    ∀ (d : Nat) (n : NodeId) (s : S F) (v : Int),
+      R.val ((execRec cx d).strMaxLength n) s = .ok v ↔ specStrMaxLength cx d n s = some v :=
+  strMaxLength_iffH cx (IHs.ofNoFormula cx hnf)
+
+theorem intSetMinF_iff (cx : Ctx F E) (hnf : NoFormulaNodes cx) (d : Nat) (n : NodeId) (v : Int) (s s' : S F) :
+    M.eff (intSetMinF cx (execRec cx d) n v) s = (.ok (), s') ↔ specIntSetMin cx d n v s = some s' :=
+  intSetMinF_iffH cx (IHs.ofNoFormula cx hnf) d n v s s'
+
+theorem intSetMaxF_iff (cx : Ctx F E) (hnf : NoFormulaNodes cx) (d : Nat) (n : NodeId) (v : Int) (s s' : S F) :
+    M.eff (intSetMaxF cx (execRec cx d) n v) s = (.ok (), s') ↔ specIntSetMax cx d n v s = some s' :=
+  intSetMaxF_iffH cx (IHs.ofNoFormula cx hnf) d n v s s'
+
+theorem floatSetMinF_iff (cx : Ctx F E) (hnf : NoFormulaNodes cx) (d : Nat) (n : NodeId) (v : F) (s s' : S F) :
+    M.eff (floatSetMinF cx (execRec cx d) n v) s = (.ok (), s') ↔ specFloatSetMin cx d n v s = some s' :=
+  floatSetMinF_iffH cx (IHs.ofNoFormula cx hnf) d n v s s'
+
+theorem floatSetMaxF_iff (cx : Ctx F E) (hnf : NoFormulaNodes cx) (d : Nat) (n : NodeId) (v : F) (s s' : S F) :
+    M.eff (floatSetMaxF cx (execRec cx d) n v) s = (.ok (), s') ↔ specFloatSetMax cx d n v s = some s' :=
+  floatSetMaxF_iffH cx (IHs.ofNoFormula cx hnf) d n v s s'
+
+theorem enumSetByNameF_iff (cx : Ctx F E) (hnf : NoFormulaNodes cx) (d : Nat) (n : NodeId) (name : String)
+    (s s' : S F) :
+    M.eff (enumSetByNameF cx (execRec cx d) n name) s = (.ok (), s') ↔ specEnumSetByName cx d n name s = some s' :=
+  enumSetByNameF_iffH cx (IHs.ofNoFormula cx hnf) d n name s s'
+
+theorem regReadF_iff (cx : Ctx F E) (hnf : NoFormulaNodes cx) (d : Nat) (n : NodeId) (bufLen : Nat) (s : S F)
+    (bs : Bytes) :
+    R.val (regReadF cx (execRec cx d) n bufLen) s = .ok bs ↔ specRegRead cx d n bufLen s = some bs :=
+  regReadF_iffH cx (IHs.ofNoFormula cx hnf) d n bufLen s bs
 
 end CamVerif.C03
